@@ -28,6 +28,9 @@ def runC01 (o : XOps α) (r : Req) : Option Resp :=
   let params : Array α := (r.fl 1 : List α).toArray
   match r.op with
   | "nonlin" => some (respOf (nonlinApply o (r.str 0) r.ds (r.fl 1) B x inverse))
+  | "logtanh_consts" =>
+    let c := logTanhConsts (r.d 0)
+    some { fs := [[c.1.toBits.toNat, c.2.1.toBits.toNat, c.2.2.toBits.toNat]] }
   | "cdf" => some (respOf (cdfApply o (cfgOf r) B (r.nat 4) x params inverse))
   | "coupling" =>
     -- optional unconditional transform of the identity features: s[3] = its family ("" = none), f[3] = its parameters
